@@ -61,6 +61,13 @@ func goType(e ast.Expr) string {
 		if id, ok := v.Elt.(*ast.Ident); ok && id.Name == "byte" && v.Len == nil {
 			return "bytes"
 		}
+		if id, ok := v.Elt.(*ast.Ident); ok && v.Len == nil {
+			return "list:" + id.Name
+		}
+	case *ast.StarExpr:
+		if id, ok := v.X.(*ast.Ident); ok {
+			return "opt:" + id.Name
+		}
 	case *ast.SelectorExpr:
 		if v.Sel.Name == "Int" {
 			return "Int"
@@ -107,6 +114,11 @@ var getters = map[string]getter{
 	"GetMaxMessageBodySize":                {nil, "struct:MaxMessageBodySize", true},
 	"GetPerMessageBurnLimit":               {[]string{"str"}, "struct:PerMessageBurnLimit", true},
 	"ReserveAndIncrementNonce":             {nil, "struct:Nonce", false},
+	"GetNextAvailableNonce":                {nil, "struct:Nonce", true},
+	"GetAllPerMessageBurnLimits":           {nil, "list:PerMessageBurnLimit", false},
+	"GetAllTokenPairs":                     {nil, "list:TokenPair", false},
+	"GetAllUsedNonces":                     {nil, "list:Nonce", false},
+	"GetRemoteTokenMessengers":             {nil, "list:RemoteTokenMessenger", false},
 	"GetUsedNonce":                         {[]string{"struct:Nonce"}, "bool", false},
 }
 
@@ -129,6 +141,7 @@ var setters = map[string][]string{
 	"DeleteTokenPair":                      {"u32", "bytes"},
 	"SetPerMessageBurnLimit":               {"struct:PerMessageBurnLimit"},
 	"SetUsedNonce":                         {"struct:Nonce"},
+	"SetNextAvailableNonce":                {"struct:Nonce"},
 }
 
 // structs of x/cctp/types built by go_mk_<Name>; the others with a literal are events (go_ev_<Name>) or requests
@@ -164,9 +177,13 @@ type hTr struct {
 	lower   map[string]bool
 	lines   []string
 	pending *pendingCall
-	rebound map[string]bool // locals re-bound in the block being translated
-	uses    map[string]bool // translated functions this one calls
-	usesE   map[string]bool // translated functions whose definition mentions the environment (they take it as first argument)
+	rebound map[string]bool   // locals re-bound in the block being translated
+	uses    map[string]bool   // translated functions this one calls
+	usesE   map[string]bool   // translated functions whose definition mentions the environment (they take it as first argument)
+	record  bool              // the request is one Gallina value (genesis), its fields are read through accessors
+	derefs  map[string]string // Go expression known to be a non-nil pointer here -> the Gallina name of what it points to
+	nderef  int
+	valTy   string // result type of a value-returning function (kind "val")
 }
 
 func (h *hTr) bad(format string, a ...interface{}) { panic(untranslatable(fmt.Sprintf(format, a...))) }
@@ -198,6 +215,8 @@ func (h *hTr) coerce(x, have, want, what string) string {
 		return "(go_int " + x + ")"
 	case have == "bytes" && want == "str", have == "str" && want == "bytes":
 		return x // string(b) / []byte(s): the model represents both as byte lists
+	case have == "slice" && want == "list:Attester":
+		return "(values " + x + ")"
 	}
 	h.bad("%s: %s where %s is expected", what, have, want)
 	return ""
@@ -243,6 +262,14 @@ func (h *hTr) expr(e ast.Expr) (string, string) {
 		}
 	case *ast.SelectorExpr:
 		if id, ok := v.X.(*ast.Ident); ok {
+			if id.Name == h.msgVar && h.msgVar != "" && h.record {
+				for _, f := range h.structs[h.msgTy] {
+					if f.name == v.Sel.Name {
+						return fmt.Sprintf("(go_f_%s_%s a_%s)", h.msgTy, f.name, h.msgVar), f.ty
+					}
+				}
+				h.bad("unknown field %s", v.Sel.Name)
+			}
 			if id.Name == h.msgVar && h.msgVar != "" {
 				for _, f := range h.structs[h.msgTy] {
 					if f.name == v.Sel.Name {
@@ -269,6 +296,16 @@ func (h *hTr) expr(e ast.Expr) (string, string) {
 				}
 			}
 		}
+		if d, ok := h.derefs[h.t.show(v.X)]; ok {
+			// p.F on a pointer known to be non-nil here
+			parts := strings.SplitN(d, "\x00", 2)
+			sn := strings.TrimPrefix(parts[0], "struct:")
+			for _, f := range h.structs[sn] {
+				if f.name == v.Sel.Name {
+					return fmt.Sprintf("(go_f_%s_%s %s)", sn, f.name, parts[1]), f.ty
+				}
+			}
+		}
 		x, ty := h.expr(v.X)
 		if ty == "resp" && v.Sel.Name == "Nonce" {
 			return "(go_resp_nonce " + x + ")", "u64"
@@ -285,6 +322,11 @@ func (h *hTr) expr(e ast.Expr) (string, string) {
 			}
 		}
 		h.bad("field access %s", h.t.show(e))
+	case *ast.StarExpr:
+		if d, ok := h.derefs[h.t.show(v.X)]; ok {
+			parts := strings.SplitN(d, "\x00", 2)
+			return parts[1], parts[0]
+		}
 	case *ast.UnaryExpr:
 		if v.Op == token.NOT {
 			x, ty := h.expr(v.X)
@@ -292,9 +334,17 @@ func (h *hTr) expr(e ast.Expr) (string, string) {
 				return "(negb " + x + ")", "bool"
 			}
 		}
+		if v.Op == token.AND {
+			// &x of a local struct value
+			if id, ok := v.X.(*ast.Ident); ok && strings.HasPrefix(h.env[id.Name], "struct:") {
+				return "(Some v_" + id.Name + ")", "opt:" + strings.TrimPrefix(h.env[id.Name], "struct:")
+			}
+		}
 	case *ast.CallExpr:
 		fn := h.t.show(v.Fun)
 		switch {
+		case fn == "types.DefaultGenesis" && len(v.Args) == 0:
+			return "go_DefaultGenesis", "struct:GenesisState"
 		case fn == "len" && len(v.Args) == 1:
 			x, ty := h.expr(v.Args[0])
 			if ty == "str" || ty == "bytes" || ty == "slice" || ty == "acc" {
@@ -472,6 +522,12 @@ func (h *hTr) expr(e ast.Expr) (string, string) {
 		case token.EQL, token.NEQ, token.LSS, token.LEQ, token.GTR, token.GEQ:
 			if h.t.show(v.Y) == "nil" {
 				x, ty := h.expr(v.X)
+				if strings.HasPrefix(ty, "opt:") {
+					if v.Op == token.NEQ {
+						return "(go_is_some " + x + ")", "bool"
+					}
+					return "(negb (go_is_some " + x + "))", "bool"
+				}
 				if ty == "bytes" {
 					// the decoded request cannot tell a nil slice from an empty one; neither can anything the handlers do with it
 					if v.Op == token.EQL {
@@ -535,6 +591,20 @@ func (h *hTr) expr(e ast.Expr) (string, string) {
 	}
 	h.bad("expression %s", h.t.show(e))
 	return "", ""
+}
+
+// expr without giving up on the whole function
+func (h *hTr) tryExpr(e ast.Expr) (x, ty string) {
+	defer func() {
+		if r := recover(); r != nil {
+			if _, ok := r.(untranslatable); ok {
+				x, ty = "", ""
+				return
+			}
+			panic(r)
+		}
+	}()
+	return h.expr(e)
 }
 
 func (h *hTr) scalarExpr(e ast.Expr) (int64, bool) {
@@ -1018,6 +1088,15 @@ func (h *hTr) stmt(s ast.Stmt) {
 					sn := strings.TrimPrefix(h.env[id.Name], "struct:")
 					for _, f := range h.structs[sn] {
 						if f.name == se.Sel.Name {
+							if m, as, ok := h.keeperCall(rhs); ok {
+								g, known := getters[m]
+								if !known || g.found {
+									h.bad("%s", h.t.show(s))
+								}
+								h.lines = append(h.lines, fmt.Sprintf("tmp <- go_%s%s ;;", m, h.args(m, as, g.args)))
+								h.bindLocal(id.Name, fmt.Sprintf("(go_set_%s_%s v_%s %s)", sn, f.name, id.Name, h.coerce("tmp", g.res, f.ty, h.t.show(s))), "struct:"+sn)
+								return
+							}
 							x, ty := h.expr(rhs)
 							h.bindLocal(id.Name, fmt.Sprintf("(go_set_%s_%s v_%s %s)", sn, f.name, id.Name, h.coerce(x, ty, f.ty, h.t.show(s))), "struct:"+sn)
 							return
@@ -1145,10 +1224,49 @@ func (h *hTr) stmt(s ast.Stmt) {
 				return
 			}
 		}
+		// if p != nil { A } else { B } on a pointer field: A runs with *p bound
+		if be, ok := v.Cond.(*ast.BinaryExpr); ok && be.Op == token.NEQ && h.t.show(be.Y) == "nil" && v.Else != nil {
+			if x, ty := h.tryExpr(be.X); strings.HasPrefix(ty, "opt:") {
+				eb, ok := v.Else.(*ast.BlockStmt)
+				if !ok {
+					h.bad("else if")
+				}
+				h.nderef++
+				name := fmt.Sprintf("v_deref%d", h.nderef)
+				key := h.t.show(be.X)
+				old, had := h.derefs[key]
+				h.derefs[key] = "struct:" + strings.TrimPrefix(ty, "opt:") + "\x00" + name
+				thenLines, thenRet, thenRe := h.subBlock(v.Body.List)
+				if had {
+					h.derefs[key] = old
+				} else {
+					delete(h.derefs, key)
+				}
+				elseLines, elseRet, elseRe := h.subBlock(eb.List)
+				if thenRet || elseRet || len(thenRe) != 0 || len(elseRe) != 0 {
+					h.bad("pointer test with returns or assignments inside")
+				}
+				h.lines = append(h.lines, fmt.Sprintf("(match %s with Some %s => (%s ret tt) | None => (%s ret tt) end) ;;;", x, name, strings.Join(thenLines, " "), strings.Join(elseLines, " ")))
+				return
+			}
+		}
 		var c, ty string
 		cond, negated := v.Cond, false
 		if ue, ok := cond.(*ast.UnaryExpr); ok && ue.Op == token.NOT {
 			cond, negated = ue.X, true
+		}
+		if v.Else == nil && len(v.Body.List) == 1 {
+			// if cond { panic(...) }
+			if es, ok := v.Body.List[0].(*ast.ExprStmt); ok {
+				if ce, ok := es.X.(*ast.CallExpr); ok && h.t.show(ce.Fun) == "panic" {
+					c, ty = h.expr(v.Cond)
+					if ty != "bool" {
+						h.bad("condition %s", h.t.show(v.Cond))
+					}
+					h.lines = append(h.lines, "go_panic_if "+c+" ;;;")
+					return
+				}
+			}
 		}
 		if m, as, ok := h.keeperCall(cond); ok {
 			// if k.GetUsedNonce(ctx, n) { ... }: the call is made first, its result tested
@@ -1177,8 +1295,16 @@ func (h *hTr) stmt(s ast.Stmt) {
 				h.lines = append(h.lines, "if "+c+" then ("+strings.Join(thenLines, " ")+") else")
 				return
 			}
+			if len(thenRe) == 1 {
+				var name string
+				for k := range thenRe {
+					name = k
+				}
+				h.lines = append(h.lines, fmt.Sprintf("v_%s <- (if %s then (%s ret v_%s) else ret v_%s) ;;", name, c, strings.Join(thenLines, " "), name, name))
+				return
+			}
 			if len(thenRe) != 0 {
-				h.bad("an if without else assigns outer variables")
+				h.bad("an if without else assigns more than one outer variable")
 			}
 			h.lines = append(h.lines, "(if "+c+" then ("+strings.Join(thenLines, " ")+" ret tt) else ret tt) ;;;")
 			return
@@ -1234,7 +1360,43 @@ func (h *hTr) stmt(s ast.Stmt) {
 			h.bad("keeper method %s", m)
 		}
 		h.lines = append(h.lines, "go_"+m+h.args(m, as, want)+" ;;;")
+	case *ast.RangeStmt:
+		// for _, elem := range list { ... }
+		if v.Tok != token.DEFINE || v.Value == nil || (v.Key != nil && h.t.show(v.Key) != "_") {
+			h.bad("%s", h.t.show(s))
+		}
+		elem, ok := v.Value.(*ast.Ident)
+		if !ok {
+			h.bad("%s", h.t.show(s))
+		}
+		x, ty := h.expr(v.X)
+		if !strings.HasPrefix(ty, "list:") {
+			h.bad("range over a %s", ty)
+		}
+		outerTy, had := h.env[elem.Name]
+		h.env[elem.Name] = "struct:" + strings.TrimPrefix(ty, "list:")
+		body, endsRet, re := h.subBlock(v.Body.List)
+		if had {
+			h.env[elem.Name] = outerTy
+		} else {
+			delete(h.env, elem.Name)
+		}
+		if endsRet || len(re) != 0 {
+			h.bad("range body with a return or an assignment to an outer variable")
+		}
+		h.lines = append(h.lines, fmt.Sprintf("go_for_each (fun v_%s => %s ret tt) %s ;;;", elem.Name, strings.Join(body, " "), x))
 	case *ast.ReturnStmt:
+		if h.kind == "val" {
+			if len(v.Results) != 1 {
+				h.bad("%s", h.t.show(s))
+			}
+			x, ty := h.expr(v.Results[0])
+			if ty != h.valTy {
+				h.bad("returns a %s", ty)
+			}
+			h.lines = append(h.lines, "ret "+x)
+			return
+		}
 		h.ret(v)
 	default:
 		h.bad("%s", h.t.show(s))
@@ -1537,4 +1699,107 @@ func safeTranslateHandlers(repo string, ints map[string]int64, scalarVars map[st
 		}
 	}()
 	return translateHandlers(repo, ints, scalarVars)
+}
+
+// InitGenesis / ExportGenesis of x/cctp/genesis.go, translated with the same machinery (loops over the genesis lists,
+// pointer fields, panic).  Gen/GoG_InitGenesis.v and Gen/GoG_ExportGenesis.v.
+func translateGenesis(repo string, ints map[string]int64, scalarVars map[string]int64) (out map[string]string) {
+	out = map[string]string{}
+	notTranslated := func(name, reason string) string {
+		return fmt.Sprintf("(* NOT TRANSLATED: %s *)\nDefinition go_%s_translated : bool := false.\nDefinition go_%s_reason : string := %s.\nDefinition go_%s_ok : Prop := True.\nLemma go_%s_ok_proof : go_%s_ok.\nProof. exact I. Qed.\n",
+			strings.ReplaceAll(reason, "*)", "* )"), name, name, coqStr(reason), name, name, name)
+	}
+	defer func() {
+		if r := recover(); r != nil {
+			for _, n := range []string{"InitGenesis", "ExportGenesis"} {
+				out["GoG_"+n+".v"] = notTranslated(n, fmt.Sprintf("the translator failed: %v", r))
+			}
+		}
+	}()
+	fset := token.NewFileSet()
+	ct := &codecTr{fset: fset, ints: ints}
+	structs := pbStructs(repo, fset)
+	scalars := map[string]int64{}
+	for k, v := range ints {
+		scalars[k] = v
+	}
+	for k, v := range scalarVars {
+		scalars[k] = v
+	}
+	af, err := parser.ParseFile(fset, filepath.Join(repo, "x/cctp/genesis.go"), nil, 0)
+	found := map[string]*ast.FuncDecl{}
+	if err == nil {
+		for _, d := range af.Decls {
+			if fd, ok := d.(*ast.FuncDecl); ok && fd.Recv == nil && fd.Body != nil {
+				found[fd.Name.Name] = fd
+			}
+		}
+	}
+	imports := "From Coq Require Import Bool Arith.\nFrom Cctp Require Import Lib.Bytes Lib.SMap Lib.Text Lib.Hex Model.Codec Model.State Model.Attest Model.Ledger Model.Handlers Model.Genesis Proofs.MonadFacts Gen.GoSem Gen.GoSemGenesis.\nClose Scope string_scope.\n\n"
+	for _, n := range []string{"InitGenesis", "ExportGenesis"} {
+		fd := found[n]
+		if fd == nil {
+			out["GoG_"+n+".v"] = notTranslated(n, "no function of this name in x/cctp/genesis.go")
+			continue
+		}
+		h := &hTr{t: ct, structs: structs, scalars: scalars, funcs: map[string]*funcInfo{}, env: map[string]string{}, lits: map[string]map[string]string{},
+			lower: map[string]bool{}, uses: map[string]bool{}, usesE: map[string]bool{}, derefs: map[string]string{}, record: true}
+		var reason string
+		func() {
+			defer func() {
+				if r := recover(); r != nil {
+					if u, ok := r.(untranslatable); ok {
+						reason = string(u)
+						return
+					}
+					reason = fmt.Sprint(r)
+				}
+			}()
+			ps := fd.Type.Params.List
+			if len(ps) < 2 || len(ps[1].Names) != 1 || ct.show(ps[1].Type) != "*keeper.Keeper" {
+				h.bad("signature")
+			}
+			h.recvK = ps[1].Names[0].Name
+			switch n {
+			case "InitGenesis":
+				if len(ps) != 3 || len(ps[2].Names) != 1 || ct.show(ps[2].Type) != "types.GenesisState" || fd.Type.Results != nil {
+					h.bad("signature")
+				}
+				h.kind, h.msgVar, h.msgTy = "unit", ps[2].Names[0].Name, "GenesisState"
+			case "ExportGenesis":
+				if len(ps) != 2 || fd.Type.Results == nil || len(fd.Type.Results.List) != 1 || ct.show(fd.Type.Results.List[0].Type) != "*types.GenesisState" {
+					h.bad("signature")
+				}
+				h.kind, h.valTy = "val", "struct:GenesisState"
+			}
+			h.block(fd.Body.List)
+			if h.kind == "unit" {
+				h.lines = append(h.lines, "ret tt")
+			}
+			if len(h.lines) == 0 || !strings.HasPrefix(h.lines[len(h.lines)-1], "ret ") {
+				h.bad("does not end in a return")
+			}
+		}()
+		if reason != "" {
+			out["GoG_"+n+".v"] = notTranslated(n, reason)
+			continue
+		}
+		var sb strings.Builder
+		sb.WriteString(imports)
+		if n == "InitGenesis" {
+			fmt.Fprintf(&sb, "Definition go_InitGenesis (a_%s : genesis) : M unit :=\n  %s.\n\n", h.msgVar, strings.Join(h.lines, "\n  "))
+			sb.WriteString("(* run on an empty store, the translated InitGenesis produces exactly the model's store, and panics exactly when the model does *)\n")
+			fmt.Fprintf(&sb, "Definition go_InitGenesis_ok : Prop := forall g h, h_st h = empty_store ->\n  match init_genesis g with\n  | Some s => go_InitGenesis g h = (ROk tt, go_with_st h s)\n  | None => fst (go_InitGenesis g h) = RPanic\n  end.\n")
+			sb.WriteString("Lemma go_InitGenesis_ok_proof : go_InitGenesis_ok.\nProof. timeout 600 (unfold go_InitGenesis_ok, go_InitGenesis; go_genesis_init). Qed.\n")
+		} else {
+			fmt.Fprintf(&sb, "Definition go_ExportGenesis : M genesis :=\n  %s.\n\n", strings.Join(h.lines, "\n  "))
+			sb.WriteString("(* on a chain whose pause flags are set (every initialised chain) the translated ExportGenesis returns the model's export, changes nothing, and panics exactly when the model does (a role slot unset) *)\n")
+			sb.WriteString("Definition go_ExportGenesis_ok : Prop := forall h, bm_paused (h_st h) <> None -> sr_paused (h_st h) <> None ->\n  match export_genesis (h_st h) with\n  | Some g => go_ExportGenesis h = (ROk g, h)\n  | None => fst (go_ExportGenesis h) = RPanic\n  end.\n")
+			sb.WriteString("Lemma go_ExportGenesis_ok_proof : go_ExportGenesis_ok.\nProof. timeout 600 (unfold go_ExportGenesis_ok, go_ExportGenesis; go_genesis_export). Qed.\n")
+		}
+		sb.WriteString("\nFrom Coq Require Import String.\nOpen Scope string_scope.\n")
+		fmt.Fprintf(&sb, "Definition go_%s_translated : bool := true.\nDefinition go_%s_reason : string := \"\".\n", n, n)
+		out["GoG_"+n+".v"] = sb.String()
+	}
+	return out
 }
